@@ -253,6 +253,55 @@ Proof.
   unfold valid_utf8. rewrite H1, H2. reflexivity.
 Qed.
 
+Ltac decide_ifs :=
+  repeat match goal with |- context [if ?c then _ else _] =>
+    first [ replace c with true by lia; cbv iota | replace c with false by lia; cbv iota
+          | destruct c eqn:?; cbv iota ] end.
+
+(* converse of utf8_wf_valid: what codec.go accepts (utf8.Valid, no NUL) is well-formed by RFC 3629 *)
+Lemma utf8_valid_wf_n (n : nat) : forall s, (length s <= n)%nat ->
+  utf8_valid s = true -> existsb (N.eqb 0) s = false -> utf8_wf s = true.
+Proof.
+  induction n as [|n IH]; intros s Hl Hv Hz.
+  { destruct s; [reflexivity | cbn in Hl; lia]. }
+  destruct s as [|a r]; [reflexivity|].
+  cbn [length] in Hl. cbn [utf8_valid] in Hv. cbn [existsb] in Hz. apply orb_false_iff in Hz. destruct Hz as [Za Zr].
+  cbn [utf8_wf]. unfold tail, btw. unfold cont, in_range in Hv.
+  destruct (a <? 128) eqn:E1.
+  { replace ((1 <=? a) && (a <=? 127)) with true by lia. apply IH; [lia | exact Hv | exact Zr]. }
+  replace ((1 <=? a) && (a <=? 127)) with false by lia.
+  cbv iota in Hv. destruct ((194 <=? a) && (a <=? 223)) eqn:E2; cbv iota in Hv.
+  { destruct r as [|b r1]; [discriminate Hv|]. cbn [length] in Hl. cbn [existsb] in Zr.
+    apply orb_false_iff in Zr. destruct Zr as [Zb Zr1].
+    apply andb_prop in Hv. destruct Hv as [Hb Hr1].
+    rewrite Hb. cbn [andb]. apply IH; [lia | exact Hr1 | exact Zr1]. }
+  destruct ((224 <=? a) && (a <=? 239)) eqn:E3; cbv iota in Hv.
+  { destruct r as [|b [|c r2]]; try discriminate Hv. cbn [length] in Hl. cbn [existsb] in Zr.
+    apply orb_false_iff in Zr. destruct Zr as [Zb Zr]. apply orb_false_iff in Zr. destruct Zr as [Zc Zr2].
+    apply andb_prop in Hv. destruct Hv as [Hv Hr2]. apply andb_prop in Hv. destruct Hv as [Hb Hc].
+    assert (IHr : utf8_wf r2 = true) by (apply IH; [lia | exact Hr2 | exact Zr2]).
+    destruct (a =? 224) eqn:A0; destruct (a =? 237) eqn:A1; cbv iota in Hb; try (exfalso; lia); decide_ifs; first [exact IHr | exfalso; lia]. }
+  destruct ((240 <=? a) && (a <=? 244)) eqn:E4; cbv iota in Hv; [|discriminate Hv].
+  destruct r as [|b [|c [|d r3]]]; try discriminate Hv. cbn [length] in Hl. cbn [existsb] in Zr.
+  apply orb_false_iff in Zr. destruct Zr as [Zb Zr]. apply orb_false_iff in Zr. destruct Zr as [Zc Zr].
+  apply orb_false_iff in Zr. destruct Zr as [Zd Zr3].
+  apply andb_prop in Hv. destruct Hv as [Hv Hr3]. apply andb_prop in Hv. destruct Hv as [Hv Hd].
+  apply andb_prop in Hv. destruct Hv as [Hb Hc].
+  assert (IHr : utf8_wf r3 = true) by (apply IH; [lia | exact Hr3 | exact Zr3]).
+  destruct (a =? 240) eqn:B0; destruct (a =? 244) eqn:B1; cbv iota in Hb; try (exfalso; lia); decide_ifs; first [exact IHr | exfalso; lia].
+Qed.
+
+(* the model's validity predicate for strings IS the specification: well-formed UTF-8 per RFC 3629
+   (the ABNF of section 4, as SpecCodec.utf8_wf writes it) without the null character *)
+Theorem valid_utf8_is_spec s : valid_utf8 s = utf8_wf s.
+Proof.
+  destruct (utf8_wf s) eqn:W.
+  - apply utf8_wf_valid. exact W.
+  - destruct (valid_utf8 s) eqn:V; [|reflexivity]. exfalso.
+    unfold valid_utf8 in V. apply andb_prop in V. destruct V as [V1 V2]. apply negb_true_iff in V2.
+    rewrite (utf8_valid_wf_n (length s) s (le_n _) V1 V2) in W. discriminate.
+Qed.
+
 (* ---------- variable byte integer ---------- *)
 
 Lemma put_vbi_encode n : n <= 268435455 -> vbi_encode n = Some (put_vbi n).
